@@ -212,7 +212,7 @@ def diagnose(r):
     # a socket listener whose buffer was not emptied by its disconnect and has grown since
     zombies = []
     for k, e in enumerate(pre + [ev]):
-        if e.get("a") == "disconnect" and e.get("qbefore", 0) >= 2:
+        if e.get("a") == "disconnect" and e.get("qbefore", 0) >= 2 and not e.get("held"):
             after = [x["q"][e["slot"] - 1] for x in (pre + [ev])[k:] if "q" in x]
             if after and max(after) > after[0]:
                 zombies.append(e)
